@@ -489,6 +489,8 @@ func C06(p *core.Program, r *core.Report) {
 	// ---- (4) narrow counter
 	checkNarrowCounter(p, r, fwd, incCalls)
 
+	checkRemovalLoops(p, r)
+
 	// IsLifetimeExceeded covers both clocks
 	ile := p.Func(bp7, "Bundle", "IsLifetimeExceeded")
 	okZero := len(core.CallsTo(ile, bp7+".CreationTimestamp.IsZeroTime")) > 0 && len(core.CallsTo(ile, bp7+".BundleAgeBlock.Age")) > 0
@@ -600,4 +602,112 @@ func checkNarrowCounter(p *core.Program, r *core.Report, fwd *ssa.Function, incC
 		}
 	}
 	r.Check(okRet && okUse, "narrow-counter/"+fname(fwd)+"/overflow-means-exceeded", "when the counter cannot be incremented any more the bundle counts as exceeded: Increment reports true on that path and forward uses Increment's verdict for the drop decision", p.Pos(inc.Pos()), "", fmt.Sprintf("Increment has a constant-true (saturated) result: %v; forward uses Increment's result: %v", okRet, okUse))
+}
+
+// checkRemovalLoops: an element removed in place (s = append(s[:i], s[i+1:]...))
+// inside a loop over the same slice shifts the following element into slot i;
+// the loop must therefore run downwards, or stop after the removal — otherwise
+// the element after each removed one is never inspected.
+func checkRemovalLoops(p *core.Program, r *core.Report) {
+	n := 0
+	for _, fn := range p.RepoFuncs() {
+		core.EachInstr(fn, func(in ssa.Instruction) {
+			c, ok := in.(*ssa.Call)
+			if !ok || !isRemovalIdiom(c) {
+				return
+			}
+			idx := c.Common().Args[0].(*ssa.Slice).High
+			// the loop whose induction variable indexes the removal
+			var l *core.Loop
+			var hdr *ssa.BasicBlock
+			if phi, ok := idx.(*ssa.Phi); ok {
+				hdr = phi.Block()
+			} else if b, ok := idx.(*ssa.BinOp); ok {
+				if phi, ok := b.X.(*ssa.Phi); ok {
+					hdr = phi.Block()
+				}
+			}
+			for _, ll := range core.Loops(fn) {
+				if ll.Header == hdr {
+					l = ll
+				}
+			}
+			if l == nil {
+				return
+			}
+			n++
+			key := "in-place-removal/" + fname(fn)
+			rule := "a loop that removes element i in place either runs downwards or leaves the loop right after the removal (going upwards, the element that slides into slot i would be skipped — e.g. the second of two adjacent unknown blocks flagged for removal)"
+			// direction of the induction variable
+			down, up := false, false
+			if phi, ok := idx.(*ssa.Phi); ok {
+				for _, e := range phi.Edges {
+					if b, ok := e.(*ssa.BinOp); ok && b.X == ssa.Value(phi) {
+						k, isC := core.ConstInt(b.Y)
+						if isC && ((b.Op == token.ADD && k < 0) || (b.Op == token.SUB && k > 0)) {
+							down = true
+						}
+						if isC && ((b.Op == token.ADD && k > 0) || (b.Op == token.SUB && k < 0)) {
+							up = true
+						}
+					}
+				}
+			} else if b, ok := idx.(*ssa.BinOp); ok {
+				// rangeindex: idx = phi + 1
+				if _, isPhi := b.X.(*ssa.Phi); isPhi && b.Op == token.ADD {
+					up = true
+				}
+			}
+			// does control return to the loop header after the removal?
+			returns := core.BlocksReachableFrom(in.Block())[l.Header] && reachesWithinLoop(in.Block(), l)
+			switch {
+			case down && !up:
+				r.OK(key, rule, p.Pos(in.Pos()), "loop runs downwards")
+			case !returns:
+				r.OK(key, rule, p.Pos(in.Pos()), "the loop is left after the removal")
+			default:
+				r.Fail(key, rule, p.Pos(in.Pos()), "upward loop continues after removing element i in place")
+			}
+		})
+	}
+	r.Min("in-place removals inside loops", 5)
+	r.Count("in-place removals inside loops", n)
+}
+
+// isRemovalIdiom: append(s[:i], s[i+1:]...)
+func isRemovalIdiom(c *ssa.Call) bool {
+	b, ok := c.Common().Value.(*ssa.Builtin)
+	if !ok || b.Name() != "append" || len(c.Common().Args) != 2 {
+		return false
+	}
+	a0, ok0 := c.Common().Args[0].(*ssa.Slice)
+	a1, ok1 := c.Common().Args[1].(*ssa.Slice)
+	if !ok0 || !ok1 || a0.High == nil || a1.Low == nil || a0.Low != nil || a1.High != nil {
+		return false
+	}
+	plus, isB := a1.Low.(*ssa.BinOp)
+	if !isB || plus.Op != token.ADD || plus.X != a0.High {
+		return false
+	}
+	k, isC := core.ConstInt(plus.Y)
+	return isC && k == 1
+}
+
+// reachesWithinLoop: from block b the loop header can be reached again without leaving the loop.
+func reachesWithinLoop(b *ssa.BasicBlock, l *core.Loop) bool {
+	seen := map[*ssa.BasicBlock]bool{}
+	stack := append([]*ssa.BasicBlock{}, b.Succs...)
+	for len(stack) > 0 {
+		x := stack[len(stack)-1]
+		stack = stack[:len(stack)-1]
+		if seen[x] || !l.Blocks[x] {
+			continue
+		}
+		seen[x] = true
+		if x == l.Header {
+			return true
+		}
+		stack = append(stack, x.Succs...)
+	}
+	return false
 }
